@@ -54,7 +54,7 @@ def untag(v):
     return {kk: untag(vv) for kk, vv in x}
 
 
-def gen_rich_blocks(rng, fmt):
+def gen_rich_blocks(rng, fmt, tids=()):
     """blocks with meaningful payloads incl. log records; returns [(tag, payload)]"""
     strings = ['', 'msg one', 'proc', '/usr/libexec/x', 'com.apple.sub', 'cat', 'fmt %s', 'public', 'kernel']
     blocks = []
@@ -87,8 +87,12 @@ def gen_rich_blocks(rng, fmt):
                 _, ev = c16.gen_case(rng, fmt, rng.choice(['random', 'sparse', 'single']))[0:2] if False else (None, None)
                 st, ev = c16.gen_case(rng, fmt, rng.choice(['random', 'sparse', 'single']))
                 # clamp string indices to the 9-entry table used here
-                d = untag(c16.Dd(ev))
-                evs.append(clamp(d, len(strings)))
+                d = clamp(untag(c16.Dd(ev)), len(strings))
+                if tids and rng.random() < 0.5:
+                    d['tid'] = rng.choice(list(tids))       # a record of a thread the thread map (or an earlier record) declares
+                    if rng.random() < 0.5:
+                        d.pop('p', None)                     # ... that does not name its process
+                evs.append(d)
             blocks.append((D.TAG_LOG_EVENTS, D.plist({'Events': evs})))
         else:
             blocks.append((bytes([rng.getrandbits(8), 0x91, 0, 0, 0, 0, 0, 0]), bytes(rng.getrandbits(8) for _ in range(rng.randint(0, 11)))))
@@ -157,10 +161,9 @@ def run(ctx, model_ok):
     gens = []
     for i in range(n):
         g = cc.gen_v3(rng, small=True)
-        blocks = gen_rich_blocks(rng, fmt)
-        unaligned = bool(blocks) and rng.random() < 0.3
-        # rebuild the file with the rich blocks (same events / thread map / fillers are regenerated)
         g2 = cc.gen_v3(rng, small=True)
+        blocks = gen_rich_blocks(rng, fmt, tids=[t for t, _, _ in g2['threads']])
+        unaligned = bool(blocks) and rng.random() < 0.3
         data = D.build_v3(g2['threads'], g2['chunks'], blocks, tm_trailing=g2['tm_trailing'], last_block_unaligned=unaligned,
                           filler=rng.choice([b'', b'stack', b'xx' * 5]), junk=rng.choice([b'', b'\x00\x1d\x00', b'zz']))
         gens.append({'threads': g2['threads'], 'chunks': g2['chunks'], 'records': g2['records'], 'blocks': blocks,
